@@ -88,7 +88,7 @@ pub fn e1_jobs(prop: &str, tier: Tier) -> (Vec<E1Job>, usize) {
         "C04x" => vec![],
         "C18" => if q { vec![pill(4), pc(7), pbs(3), pbj(4), pn(3), paj(4), pc3(9)] } else { vec![pill(5), pc(8), pc3(10), paj(5), pb(4), pbj(5), pn(4), pe(1, true, 2)] },
         "C19" => if q { vec![pa15(3), pb(3), pd(5), pe(1, true, 2), pc(5), paj(4), pill(5), E1Job { profile: Profile::S, depth: 2, alt_map: false }] } else { vec![pa(3), pb(3), pbs(4), pd(5), pe(1, true, 2), pc(6), pf(4), paj(5), paj5(4), E1Job { profile: Profile::S, depth: 3, alt_map: false }] },
-        "C20" => if q { vec![pn(4), pill(4), pb(3), pc(7), pd(5), pe(1, true, 2), paj(4), pa15(3)] } else { vec![pn(5), pb(4), pc(8), pd(6), pe(1, true, 2)] },
+        "C20" => if q { vec![pn(4), pill(4), pb(3), pc(7), pd(5), pe(1, true, 2), paj(4), pa15(3), pf(3)] } else { vec![pn(5), pb(4), pc(8), pd(6), pe(1, true, 2), pf(4)] },
         _ => vec![],
     };
     let mut jobs = jobs;
@@ -669,6 +669,38 @@ pub fn e2_jobs(prop: &str, tier: Tier) -> Vec<E2Job> {
                     .collect();
                 jobs.push(E2Job { label: "3-op dependency plans with unnamed systems among named ones, single panicking system".into(), scenarios: panic_scen(&un, &[Mode::Dispatch, Mode::Seq], false), bounds: b(if q { 0 } else { 1 }), delay: false });
             }
+            {
+                // four systems, the last with TWO dependencies, running-time hints {1, 3} (a dependency may sit in an earlier
+                // stage than one registered before it; the dependent may be drawn into a group by the balance rule)
+                let mut two: Vec<Vec<Op>> = Vec::new();
+                for code in 0..64u32 {
+                    // three dependency-free systems: access {none, write A} x hint {1, 3} each
+                    let mk = |k: u32, name: &str| -> Op {
+                        let c = (code >> (2 * k)) & 3;
+                        Op::Sys(crate::spec::SysSpec { name: name.into(), reads: vec![], writes: if c & 1 == 1 { vec![0] } else { vec![] }, time: if c & 2 == 2 { 3 } else { 1 }, deps: vec![] })
+                    };
+                    for (d1, d2) in [("s0", "s1"), ("s0", "s2"), ("s1", "s2")] {
+                        two.push(vec![mk(0, "s0"), mk(1, "s1"), mk(2, "s2"), Op::Sys(crate::spec::SysSpec { name: "s3".into(), reads: vec![], writes: vec![], time: 1, deps: vec![d1.into(), d2.into()] })]);
+                    }
+                }
+                let mut scs = Vec::new();
+                for p in &two {
+                    if let Op::Sys(last) = &p[3] {
+                        let info = PlanInfo::of(p);
+                        // one of the two dependencies panics
+                        for d in &last.deps {
+                            if let Some(n) = info.nodes.iter().find(|n| &n.name == d) {
+                                for m in [Mode::Dispatch, Mode::Seq] {
+                                    let mut sc = Scenario::plain(p.clone(), m, 2);
+                                    sc.panics = vec![(n.id, false)];
+                                    scs.push(sc);
+                                }
+                            }
+                        }
+                    }
+                }
+                jobs.push(E2Job { label: "4-op plans whose last system has two dependencies (hints {1, 3}); one of the two dependencies panics".into(), scenarios: scs, bounds: b(if q { 0 } else { 1 }), delay: false });
+            }
             jobs.push(E2Job { label: "barrier plans of <= 3 ops (leading / repeated barriers, dependencies across them), single panicking system".into(), scenarios: panic_scen(&barr(3), &[Mode::Dispatch, Mode::Seq], false), bounds: b(1), delay: false });
             jobs.push(E2Job { label: "3-op plans, single panicking system".into(), scenarios: panic_scen(&depplans(3).into_iter().filter(|p| p.len() == 3).collect::<Vec<_>>(), &[Mode::Dispatch], !q), bounds: b(if q { 1 } else { 2 }), delay: false });
             {
@@ -831,6 +863,19 @@ pub fn e2_jobs(prop: &str, tier: Tier) -> Vec<E2Job> {
                     }
                 }
                 jobs.push(E2Job { label: "pool-size sweep: thread-local plans (top level, inside hand-written / MultiDispatcher batches) on user-supplied / default pools of 1..3 threads".into(), scenarios: scs, bounds: b(if q { 0 } else { 1 }), delay: false });
+            }
+            {
+                // the last of two dispatches is issued from a destructor while the calling thread unwinds from an unrelated
+                // panic (a scope guard running a final frame): it is a dispatch like any other
+                let mut scs = Vec::new();
+                for p in tl(2).into_iter().filter(|p| p.iter().any(|o| matches!(o, Op::Tl(_)))) {
+                    for mode in [Mode::Dispatch, Mode::Par, Mode::Seq] {
+                        let mut s = Scenario::plain(p.clone(), mode, 2);
+                        s.last_in_unwind = true;
+                        scs.push(s);
+                    }
+                }
+                jobs.push(E2Job { label: "thread-local plans, the second dispatch issued from a destructor during an unrelated unwind".into(), scenarios: scs, bounds: b(if q { 0 } else { 1 }), delay: false });
             }
             jobs.push(E2Job { label: "thread-local plans, 3 ops".into(), scenarios: scen(&tl(3).into_iter().filter(|p| p.len() == 3).collect::<Vec<_>>(), &[Mode::Dispatch, Mode::Async], &[1]), bounds: b(if q { 1 } else { 2 }), delay: false });
             if !q {
